@@ -14,7 +14,7 @@ FUNCTIONS = [
 ]
 BOUNDS = {
     "quick": "screens of 5 rows on 3 plates (combination, single-agent and all-control rows), every per-plate mask, symbolic observation values; 3 posterior samples, n_chunks<=2, batches of <=1 plate",
-    "thorough": "7 rows on 4 plates, n_chunks<=3",
+    "thorough": "additionally 7 rows on 4 plates, n_chunks<=3, and 40 generated screen structures of up to 12 rows on up to 7 plates with every per-plate mask",
 }
 ASSUMPTIONS = [
     "non-interference is decided syntactically under the models: masked observation values are objects that raise on any use, so an output that depends on them cannot be produced (the replay on the real code instead compares two runs that differ only in masked values, NaN and a negative number included)",
@@ -48,24 +48,45 @@ class Poison:
 
 def configs(tier, seed):
     q = tier == "quick"
-    R = 5 if q else 7
-    return [dict(name="train sparse_combo R=%d" % R, h="train", R=R, model="combo"),
-            dict(name="train interaction R=%d" % R, h="train", R=R, model="inter"),
-            dict(name="refuse sparse_combo", h="refuse", R=R, model="combo"),
-            dict(name="refuse interaction", h="refuse", R=R, model="inter"),
-            dict(name="pipeline R=%d" % R, h="pipeline", R=R, chunks=2 if q else 3),
-            dict(name="pipeline interaction-model samples R=%d" % R, h="pipeline", R=R, chunks=1 if q else 2, thetas="inter"),
-            dict(name="pipeline interaction-model samples, incomplete effect table R=%d" % R, h="pipeline", R=R, chunks=1, thetas="inter_partial")]
+    out = []
+    for R in ((5,) if q else (5, 7)):
+        out += [dict(name="train sparse_combo R=%d" % R, h="train", R=R, model="combo"),
+                dict(name="train interaction R=%d" % R, h="train", R=R, model="inter"),
+                dict(name="refuse sparse_combo R=%d" % R, h="refuse", R=R, model="combo"),
+                dict(name="refuse interaction R=%d" % R, h="refuse", R=R, model="inter"),
+                dict(name="pipeline R=%d" % R, h="pipeline", R=R, chunks=2 if q else 3),
+                dict(name="pipeline interaction-model samples R=%d" % R, h="pipeline", R=R, chunks=1 if q else 2, thetas="inter"),
+                dict(name="pipeline interaction-model samples, incomplete effect table R=%d" % R, h="pipeline", R=R, chunks=1, thetas="inter_partial")]
+    if not q:
+        # generated screen structures (see retro_common.generated_family): single-sample plates whose rows are not adjacent,
+        # repeated conditions, vehicle-only rows; every per-plate mask
+        from .retro_common import family
+        for k in range(N_GENERATED):
+            fam = "G%d" % k
+            R = len(family(fam))
+            out += [dict(name="train sparse_combo %s (%d rows)" % (fam, R), h="train", R=R, fam=fam, model="combo"),
+                    dict(name="train interaction %s (%d rows)" % (fam, R), h="train", R=R, fam=fam, model="inter"),
+                    dict(name="pipeline %s (%d rows)" % (fam, R), h="pipeline", R=R, fam=fam, chunks=2),
+                    dict(name="pipeline interaction-model samples %s (%d rows)" % (fam, R), h="pipeline", R=R, fam=fam, chunks=1, thetas="inter"),
+                    dict(name="pipeline interaction-model samples, incomplete effect table %s (%d rows)" % (fam, R), h="pipeline", R=R, fam=fam,
+                         chunks=1, thetas="inter_partial")]
+    return out
+
+
+N_GENERATED = 40
 
 
 def fixtures(cfg):
-    v = {"ob%d" % i: [0.5, 0.003, 0.97, 1.0, 0.25, 0.6, 0.4][i] for i in range(7)}
-    v.update({"pm%d" % i: i != 1 for i in range(4)})
+    v = {"ob%d" % i: ([0.5, 0.003, 0.97, 1.0, 0.25, 0.6, 0.4] + [0.1 + 0.07 * j for j in range(8)])[i] for i in range(15)}
+    v.update({"pm%d" % i: i != 1 for i in range(8)})
     v.update(n_chunks=2, batch=1, neg=0, nanrow=0)
     return [v, dict(v, pm0=False, pm1=True, n_chunks=1, batch=-1), dict(v, pm2=False, pm3=False)]
 
 
 def _rows(cfg):
+    if cfg.get("fam"):
+        from .retro_common import family
+        return family(cfg["fam"])[:cfg["R"]]
     return (ROWS5 if cfg["R"] == 5 else ROWS7)[:cfg["R"]]
 
 
